@@ -24,7 +24,7 @@ uint64_t vh_hash(const void *p, size_t n, uint64_t h);  /* FNV-1a continuation *
 #define VH_MAX_COUNTERS 256
 #define VH_DESC_MAX 4096
 typedef struct {
-    char name[56];
+    char name[104];
     uint64_t value;
 } vh_counter;
 typedef struct {
